@@ -38,6 +38,21 @@ Theorem C19_success_implies_lease : forall cfg env evs b req,
 Proof. exact produce_safe. Qed.
 Print Assumptions C19_success_implies_lease.
 
+(* (c) sharpened: if no Acquire for that partition is in flight on this broker (the normal
+   situation: Acquire calls complete within their request), a partition owned by another
+   broker is answered exactly NOT_LEADER_OR_FOLLOWER and the storage path is not entered *)
+Theorem C19_foreign_owner_not_leader : forall cfg env evs b b' req,
+  c_guard cfg = true -> pe_leasing env = true -> pe_etcd_avail env = true ->
+  let s := run cfg evs in
+  forall t p i j out o,
+    nth_error req i = Some t -> nth_error (t_parts t) j = Some p ->
+    nth_error (snd (produce cfg env s b req)) i = Some out -> nth_error out j = Some o ->
+    let rid := partition_rid (t_topic t) (p_part p) in
+    t_allowed t = true -> b' <> b -> owns s b' rid = true -> no_flight s b rid ->
+    o = (NOT_LEADER_OR_FOLLOWER, false).
+Proof. exact produce_foreign_exact. Qed.
+Print Assumptions C19_foreign_owner_not_leader.
+
 (* the decision rule of the per-partition check: every non-success lease result is mapped
    to NOT_LEADER_OR_FOLLOWER (ErrNotOwner, ErrShuttingDown) or REQUEST_TIMED_OUT (anything
    else) and the storage path is not entered *)
